@@ -25,6 +25,7 @@ type Opts struct {
 	PreLoadFreelist bool    `json:"preLoadFreelist"`
 	StrictMode      bool    `json:"strictMode"`
 	FillPercent     float64 `json:"fillPercent"`
+	NoStatistics    bool    `json:"noStatistics"`
 	MaxBatchSize    int     `json:"maxBatchSize"`
 	MaxBatchDelayMs int     `json:"maxBatchDelayMs"`
 }
@@ -40,6 +41,7 @@ func (o Opts) BoltOptions() *bolt.Options {
 		PageSize:        o.PageSize,
 		Mlock:           o.Mlock,
 		MaxSize:         o.MaxSize,
+		NoStatistics:    o.NoStatistics,
 	}
 	if o.Freelist == "hashmap" {
 		bo.FreelistType = bolt.FreelistMapType
@@ -774,8 +776,10 @@ func (s *Session) Observe(check bool) *Decoded {
 		return nil
 	}
 	s.T.Add(d.Event())
-	st := s.DB.Stats()
-	s.T.Add(Ev{"ev": "Stats", "freeN": st.FreePageN, "pendN": st.PendingPageN})
+	if !s.Opts.NoStatistics {
+		st := s.DB.Stats()
+		s.T.Add(Ev{"ev": "Stats", "freeN": st.FreePageN, "pendN": st.PendingPageN})
+	}
 	if check {
 		n := 0
 		var first string
